@@ -724,10 +724,17 @@ func (ex *Exec) enterLoop(b *ssa.BasicBlock, l *Loop, conds []Term, heaps []*Hea
 		ls.phis[phi] = v
 		// a counter that starts at a constant and is only ever incremented by a positive constant (the index of a
 		// range loop: -1, then +1 per iteration) never falls below its start - in mathematical integers
-		if v.Sort == sInt && len(phi.Edges) == 2 {
-			for k := 0; k < 2; k++ {
+		if v.Sort == sInt && len(phi.Edges) >= 2 {
+			for k := range phi.Edges {
+				// one edge carries the constant, every other edge (several back edges: `continue`, if without else)
+				// carries the same increment of this phi
 				c0, isC := phi.Edges[k].(*ssa.Const)
-				inc, isB := phi.Edges[1-k].(*ssa.BinOp)
+				inc, isB := phi.Edges[(k+1)%len(phi.Edges)].(*ssa.BinOp)
+				for j, e := range phi.Edges {
+					if j != k && e != ssa.Value(inc) {
+						isB = false
+					}
+				}
 				if !isC || !isB || c0.Value == nil || inc.Op != token.ADD || inc.X != ssa.Value(phi) {
 					continue
 				}
